@@ -1121,8 +1121,22 @@ BASE.update({'github.com/consensys/gnark/frontend.NewWitness': frontend_NewWitne
              '(github.com/consensys/gnark-crypto/ecc.ID).ScalarField': lambda ex, st, a, c: Ptr(st.alloc(Big(bvval(BN254_R, BIG))))})
 
 
+def slices_Clone(ex, st, args, ctx):
+    used('slices.Clone: a new backing array holding the same elements (shallow: elements that are slices or pointers still refer to the same storage)')
+    a = args[0]
+    if a is NIL:
+        return NIL
+    if not isinstance(a.len, int):
+        cells = list(ex.cells(st, a))
+        o = st.alloc(Array(cells))
+        return Slice(o, 0, a.len, len(cells), a.lo, a.hi)
+    cells = ex.cells(st, a)[:a.len]
+    o = st.alloc(Array(list(cells)))
+    return Slice(o, 0, a.len, a.len)
+
+
 def default_prefix_stubs():
-    return [('github.com/rs/zerolog', zerolog_any), ('(*github.com/rs/zerolog', zerolog_any), ('(github.com/rs/zerolog', zerolog_any)]
+    return [('slices.Clone[', slices_Clone), ('github.com/rs/zerolog', zerolog_any), ('(*github.com/rs/zerolog', zerolog_any), ('(github.com/rs/zerolog', zerolog_any)]
 
 
 def i_same_mod_r(ex, st, args, ctx):
@@ -2617,3 +2631,15 @@ def sha256_Sum256(ex, st, args, ctx):
 
 
 BASE.update({'(encoding/binary.bigEndian).AppendUint32': be_AppendUint32, 'crypto/sha256.Sum256': sha256_Sum256})
+
+
+def once_Do(ex, st, args, ctx):
+    used('(*sync.Once).Do: runs the function on the first call only (what it did happens-before every later Do returns)')
+    key = ('once', args[0].obj, args[0].path)
+    if st.heap.get(key):
+        return None
+    st.heap[key] = True
+    return ('tailcallv', args[1], [])
+
+
+BASE.update({'(*sync.Once).Do': once_Do})
